@@ -32,7 +32,7 @@ KINDS = ["xor_add", "mul", "div", "mod", "sdiv", "addmod", "mulmod", "exp", "exp
 
 def case(seed, idx, res, tier):
     rng = random.Random(f"c04-{seed}-{idx}")
-    spec, setup, tests = testgen.gen_contract(rng, 3, kinds=KINDS)
+    spec, setup, tests = testgen.gen_contract(rng, 3, kinds=KINDS, force_first=sorted(set(KINDS))[idx % len(set(KINDS))])
     solver = "z3" if rng.random() < 0.15 else "yices"
     codes = set() if rng.random() < 0.2 else {1, 0x11}
     ov = dict(solver=solver, panic_error_codes=set(codes), loop=5, storage_layout=rng.choice(["solidity", "generic"]))
